@@ -19,7 +19,8 @@ ATTRS = {"Username": 0x0006, "Realm": 0x0014, "Nonce": 0x0015, "Software": 0x802
          "Priority": 0x0024, "IceControlling": 0x802A, "IceControlled": 0x8029, "UseCandidate": 0x0025, "XorPeerAddress": 0x0012,
          "XorMappedAddress": 0x0020, "ChannelNumber": 0x000C, "Data": 0x0013}
 DECODE_FIELDS = {0x0020: "xor_mapped_address", 0x0016: "xor_relayed_address", 0x0012: "xor_peer_address", 0x0009: "error_code",
-                 0x0014: "realm", 0x0015: "nonce", 0x0013: "data", 0x000D: "lifetime", 0x0025: "use_candidate"}
+                 0x0014: "realm", 0x0015: "nonce", 0x0013: "data", 0x000D: "lifetime", 0x0025: "use_candidate",
+                 0x0006: "username", 0x0008: "integrity"}
 ENC = "transports::ice::stun::encode_stun_message"
 DEC = "transports::ice::stun::decode_stun_message"
 
